@@ -12,7 +12,7 @@ for f in st:
     lean=f['lean'].replace('SqlDt.Tr.','')
     eq='SqlDt.TrEq.'+lean+'_eq'; alleq.add(eq)
     names=re.findall(r"SqlDt\.((?:[A-Z][A-Za-z]*\.)?[A-Za-z_][A-Za-z0-9_]*)", f['model'])
-    names=[n for n in names if not n.startswith('Gen.') and not n.startswith('TUnit')]
+    names=[n for n in names if not n.startswith('Gen.') and not n.startswith('TUnit') and not n.startswith('Ty.')]
     if 'trunc' in f['model']: names=['Timestamp.trunc']
     for n in names: m2eq.setdefault(n,set()).add(eq)
     calls[eq]=set('SqlDt.TrEq.'+c.replace('SqlDt.Tr.','')+'_eq' for c in f.get('calls',[]))
@@ -33,6 +33,10 @@ def closure(s):
 E=lambda *xs: set('SqlDt.TrEq.'+x+'_eq' for x in xs)
 # the functions named in the task statement / DESIGN.md section 7 for each property
 declared={
+ 'C04': E('NDT.hour12','NDT.new','NDT.of_date','NDT.of_time','NDT.of_timestamp','NDT.of_interval_ym','NDT.of_interval_dt','NDT.of_oracle_date'),
+ 'C05': E('NDT.adjust_hour12','NDT.new','Date.try_from_ndt','Date.try_from_ndt_ref','Time.try_from_ndt','Time.try_from_ndt_ref','Timestamp.try_from_ndt','IntervalYM.try_from_ndt','IntervalDT.try_from_ndt','OracleDate.try_from_ndt'),
+ 'C06': E('NDT.hour12','NDT.adjust_hour12','NDT.new','NDT.of_date','NDT.of_time','NDT.of_timestamp','NDT.of_interval_ym','NDT.of_interval_dt','NDT.of_oracle_date','Date.try_from_ndt','Date.try_from_ndt_ref','Time.try_from_ndt','Time.try_from_ndt_ref','Timestamp.try_from_ndt','IntervalYM.try_from_ndt','IntervalDT.try_from_ndt','OracleDate.try_from_ndt'),
+ 'C15': E('NDT.new','NDT.of_date','NDT.of_time','NDT.of_timestamp','NDT.of_interval_ym','NDT.of_interval_dt','NDT.of_oracle_date','Date.try_from_ndt','Date.try_from_ndt_ref','Time.try_from_ndt','Time.try_from_ndt_ref','Timestamp.try_from_ndt','IntervalYM.try_from_ndt','IntervalDT.try_from_ndt','OracleDate.try_from_ndt'),
  'C14': E('IntervalYM.mul_f64','IntervalYM.div_f64','IntervalDT.mul_f64','IntervalDT.div_f64','Time.mul_f64','Time.div_f64'),
  'C01': E('date2julian','julian2date','is_leap_year','days_of_month','Date.extract','Date.day_of_week','Date.try_from_ymd'),
  'C07': E('Timestamp.extract','Timestamp.new','Timestamp.date','Timestamp.time','Time.try_from_hms','Time.extract','Time.is_valid','Time.from_hms_unchecked','Time.second','Timestamp.second'),
@@ -42,7 +46,7 @@ declared={
  'C11': E('date2julian','julian2date','Date.extract','Timestamp.extract','Timestamp.date','Timestamp.time','Date.day_of_week','Date.add_days','Date.sub_days'),
  'C12': E('Time.add_interval_dt','Time.sub_interval_dt','Time.sub_time','Time.from_interval_dt'),
  'C13': E('IntervalDT.second','IntervalYM.cmp','IntervalYM.extract','IntervalDT.extract','IntervalYM.negate','IntervalDT.negate','IntervalYM.try_from_ym','IntervalDT.try_from_dhms','IntervalYM.from_ym_unchecked','IntervalDT.from_dhms_unchecked'),
- 'C16': E('OracleDate.from_timestamp','OracleDate.new','OracleDate.add_days','OracleDate.sub_days','OracleDate.sub_date','Timestamp.oracle_add_days','Timestamp.oracle_sub_days','OracleDate.add_interval_dt'),
+ 'C16': E('OracleDate.try_from_ndt','NDT.of_oracle_date','OracleDate.from_timestamp','OracleDate.new','OracleDate.add_days','OracleDate.sub_days','OracleDate.sub_date','Timestamp.oracle_add_days','Timestamp.oracle_sub_days','OracleDate.add_interval_dt'),
  'C17': E('date2julian','julian2date','Date.extract','Timestamp.extract','Timestamp.date','Timestamp.time','Date.partial_cmp_timestamp','Date.eq_timestamp','Date.and_zero_time','OracleDate.sub_date'),
 }
 tie={}
